@@ -33,6 +33,7 @@ import (
 	"math/big"
 	"os"
 	"path/filepath"
+	"strings"
 
 	"github.com/cloudflare/circl/group"
 	"github.com/cloudflare/circl/oprf"
@@ -70,10 +71,28 @@ func (p P) label() string {
 
 var blindNames = []string{"1", "2", "N-1", "leading-zero-byte", "drbg-a", "drbg-b", "high-bit"}
 
+// degenerate blinds (kinds >= 100): what the call does with them is its own business (an error
+// is fine), but it must do the same thing every time
+var degenerateNames = map[int]string{100: "nil", 101: "empty", 102: "zero", 103: "the group order / modulus itself", 104: "one byte short", 105: "one byte long", 106: "twice the order / modulus"}
+
 func p384Blind(seed int64, kind int, label string) []byte {
 	n := elliptic.P384().Params().N
 	out := make([]byte, 48)
 	switch kind {
+	case 100:
+		return nil
+	case 101:
+		return []byte{}
+	case 102:
+		return out
+	case 103:
+		return n.FillBytes(out)
+	case 104:
+		return mc.Fill(seed, "c11-short-"+label, 47)
+	case 105:
+		return append([]byte{1}, mc.Fill(seed, "c11-long-"+label, 48)...)
+	case 106:
+		return new(big.Int).Lsh(n, 1).FillBytes(make([]byte, 49))
 	case 0:
 		out[47] = 1
 	case 1:
@@ -99,6 +118,25 @@ func ristBlind(seed int64, kind int, label string) []byte {
 	g := group.Ristretto255
 	var s group.Scalar
 	switch kind {
+	case 100:
+		return nil
+	case 101:
+		return []byte{}
+	case 102:
+		return make([]byte, 32)
+	case 103: // L, little endian
+		l, _ := new(big.Int).SetString("7237005577332262213973186563042994240857116359379907606001950938285454250989", 10)
+		be := l.FillBytes(make([]byte, 32))
+		for i, j := 0, 31; i < j; i, j = i+1, j-1 {
+			be[i], be[j] = be[j], be[i]
+		}
+		return be
+	case 104:
+		return mc.Fill(seed, "c11-rshort-"+label, 31)
+	case 105:
+		return append(mc.Fill(seed, "c11-rlong-"+label, 32), 0)
+	case 106:
+		return bytes.Repeat([]byte{0xff}, 32)
 	case 0:
 		s = g.NewScalar().SetUint64(1)
 	case 1:
@@ -124,6 +162,20 @@ func ristBlind(seed int64, kind int, label string) []byte {
 
 func rsaBlind(seed int64, kind int, n *big.Int, label string) []byte {
 	switch kind {
+	case 100:
+		return nil
+	case 101:
+		return []byte{}
+	case 102:
+		return []byte{0}
+	case 103:
+		return n.Bytes()
+	case 104:
+		return make([]byte, 255)
+	case 105:
+		return append([]byte{0}, n.Bytes()...)
+	case 106:
+		return new(big.Int).Lsh(n, 1).Bytes()
 	case 0:
 		return []byte{1}
 	case 1:
@@ -298,6 +350,17 @@ func buildFlow(p P) flow {
 			v := make([][]byte, p.Batch)
 			for m := range v {
 				v[m] = ristBlind(p.Seed, (b+m)%len(blindNames), fmt.Sprintf("k%d-in%d-pos%d", p.Key, p.In, m))
+			}
+			if b >= 100 && len(v) > 0 {
+				v[len(v)-1] = ristBlind(p.Seed, b, "degenerate")
+			}
+			switch b {
+			case 110: // no blinds at all
+				v = nil
+			case 111: // one blind too few
+				v = v[:len(v)-1]
+			case 112: // one blind too many
+				v = append(v, ristBlind(p.Seed, 4, "surplus"))
 			}
 			bv[b] = v
 		}
@@ -476,7 +539,44 @@ func runPair(p P) (outcome string, v *mc.Viol) {
 	return "two blinds: requests " + same + ", tokens identical", nil
 }
 
+// runDegenerate: the same degenerate blind three times (an unrelated random request on the same
+// client in between): error or request, the outcome must be the same each time.
+func runDegenerate(p P) (string, *mc.Viol) {
+	mc.Entropy(fmt.Sprintf("c11-%d-%s", p.Seed, p.label()))
+	f := buildFlow(p)
+	outcome := func() string {
+		var m made
+		var err error
+		if pn := mc.Catch(func() { m, err = f.create(p.I) }); pn != "" {
+			return "panic: " + trunc(pn, 80)
+		}
+		if err != nil {
+			return "error: " + err.Error()
+		}
+		return "request " + hex.EncodeToString(m.req)
+	}
+	o1 := outcome()
+	o2 := outcome()
+	_ = f.unrelated()
+	o3 := outcome()
+	name := degenerateNames[p.I]
+	if name == "" {
+		name = map[int]string{110: "no blinds", 111: "one blind too few", 112: "one blind too many"}[p.I]
+	}
+	if o1 != o2 || o1 != o3 {
+		return "degenerate-not-reproducible", &mc.Viol{Sig: fmt.Sprintf("type%d request creation with a caller-supplied degenerate blind (%s) is not reproducible", p.T, name),
+			What: fmt.Sprintf("%s: first %s, second %s, third %s", p.label(), trunc(o1, 90), trunc(o2, 90), trunc(o3, 90))}
+	}
+	return "degenerate blind: same outcome every time (" + strings.SplitN(o1, " ", 2)[0] + ")", nil
+}
+
 func runPairSafe(p P) (out string, v *mc.Viol) {
+	if p.I >= 100 {
+		if pn := mc.CatchStack(func() { out, v = runDegenerate(p) }); pn != "" {
+			return "panic", &mc.Viol{Sig: fmt.Sprintf("type%d fixed-blind issuance panics: %s", p.T, trunc(pn, 50)), What: p.label() + ": " + pn}
+		}
+		return
+	}
 	if pn := mc.CatchStack(func() { out, v = runPair(p) }); pn != "" {
 		return "panic", &mc.Viol{Sig: fmt.Sprintf("type%d fixed-blind issuance panics: %s", p.T, trunc(pn, 50)), What: p.label() + ": " + pn}
 	}
@@ -897,6 +997,18 @@ func main() {
 				}
 			}
 		}
+	}
+
+	// degenerate blinds: nil, empty, zero, the order / modulus, wrong lengths, wrong counts
+	for _, kind := range []int{100, 101, 102, 103, 104, 105, 106} {
+		cases = append(cases, P{T: 1, Key: oprfKeys[0], In: 0, I: kind, J: kind, Seed: r.Seed})
+		cases = append(cases, P{T: 5, Key: oprfKeys[0], In: 0, Batch: 2, I: kind, J: kind, Seed: r.Seed})
+		for salt := 0; salt < 2; salt++ {
+			cases = append(cases, P{T: 2, Key: rsaKeys[0], In: 0, Salt: salt, I: kind, J: kind, Seed: r.Seed})
+		}
+	}
+	for _, kind := range []int{110, 111, 112} {
+		cases = append(cases, P{T: 5, Key: oprfKeys[0], In: 0, Batch: 2, I: kind, J: kind, Seed: r.Seed})
 	}
 
 	// ---- vectors ----
